@@ -445,6 +445,10 @@ class SignalNamespace:
                 raise ValueError(f"Signal '{sig}' not found in name dictionary.")
 
 
+        # Verilog identifiers can't start with a digit (ex: _3v3_en once its leading underscore is stripped).
+        if sig_name[:1].isdigit():
+            sig_name = "_" + sig_name
+
         # Check/Add numbering when required.
         # ----------------------------------
         # Retrieve the current count for the signal name, defaulting to 0.
